@@ -354,9 +354,25 @@ pub fn gen_c12(tier: &str, seed: u64, out: &mut Vec<String>) {
 pub fn gen_c13(tier: &str, seed: u64, out: &mut Vec<String>) {
     let mut rng = Rng::new(seed ^ 0xC13);
     let n = if tier == "thorough" { 2000 } else { 200 };
-    for _ in 0..n {
+    for case in 0..n {
         // code: syscall ; jmp back  (loop forever, every step pair is one brk call)
         let prog = vec![syscall(), jmp(0, false)];
+        if case % 10 == 9 {
+            // the heap above everything else, and a request no host can satisfy: the call fails, nothing crashes
+            let (code, _) = assemble(&prog, 0x1000);
+            emit_new(out, &code, 0x1000);
+            out.push(setregs_at(&mut rng, 0x1000));
+            out.push("syscalls 12".into());
+            for arg in [0u64, *rng.pick(&[1u64 << 40, 1 << 44, 1 << 52, (1 << 63) - 1, 1 << 63, u64::MAX - 0x1000]), 0] {
+                out.push("rw 64 RAX c".into());
+                out.push(format!("rw 64 RDI {:x}", arg));
+                out.push("step".into());
+                out.push("rr 64 RAX".into());
+                out.push("step".into());
+            }
+            out.push("areas".into());
+            continue;
+        }
         let (code, _) = assemble(&prog, CODE);
         emit_new(out, &code, CODE);
         out.push(setregs_at(&mut rng, CODE));
@@ -438,6 +454,28 @@ pub fn gen_c14(tier: &str, seed: u64, out: &mut Vec<String>) {
             out.push("step".into());
             out.push("rr 64 RAX".into());
             out.push("step".into());
+        }
+        // pipe() with its descriptor array in awkward places: unmapped, read-only, straddling the end of an area, at the
+        // very top of the address space (second slot beyond 2^64); must fail cleanly, and what was created stays consistent
+        if rng.chance(1, 4) {
+            let ptr = match rng.below(4) {
+                0 => 0x9000_0000u64,
+                1 => BUF + 0x2000 - 8,
+                2 => {
+                    out.push("zero fffffffffffffff8 8 ~".into());
+                    0xffff_ffff_ffff_fff8
+                }
+                _ => {
+                    out.push("zero 300000 10 ~".into());
+                    out.push("prot 300000 1".into());
+                    0x30_0000
+                }
+            };
+            out.push("rw 64 RAX 16".into());
+            out.push(format!("rw 64 RDI {:x}", ptr));
+            out.push("step".into());
+            out.push("rr 64 RAX".into());
+            out.push("state".into());
         }
         out.push("sys".into());
         let ops = 3 + rng.below(14);
